@@ -41,6 +41,14 @@ def session(rng, cycles, bg):
             if c % 5 == 0:
                 steps.append({"op": "get", "k": rng.randrange(8)})
                 steps.append({"op": "obs"})
+            if not bg and c % 17 == 3:
+                # a copy of the directory with a torn WAL tail is opened, read and closed in this process: nothing of it may stay open
+                steps += [{"op": "put", "k": rng.randrange(8), "v": u.next(), "pad": 20}, {"op": "tornreopen"}]
+        if s == nsess - 1:
+            # a session that writes nothing (Close with an empty memstore) and one whose only writes are already flushed
+            steps += [{"op": "obs"}, {"op": "close"}, {"op": "obs"},
+                      dbgen.open_step(2, 1 << 30, 1000, mem=1 << 30, bg=bg, interval_us=500), {"op": "get", "k": 1}, {"op": "obs"}, {"op": "close"}, {"op": "obs"},
+                      dbgen.open_step(2, 1 << 30, 1000, mem=1 << 30, bg=bg, interval_us=500), {"op": "put", "k": 1, "v": u.next(), "pad": 0}, {"op": "rotate"}, {"op": "barrier"}]
         if bg and s % 2 == 0:
             # Close while a compaction is between its merge and its reflect: what the reflect installs must be released as well
             steps += [{"op": "obs"}, {"op": "window", "v": "close-while-compacting"}, {"op": "obs"}]
@@ -55,7 +63,7 @@ def res_lines(evs):
     last_merged = 0
     for e in evs:
         t = e["t"]
-        if t in ("obs", "bgfail"):
+        if t in ("obs", "bgfail", "libobs"):
             lines.append(e)
         elif t == "open":
             lines.append({"t": t, "bg": bool(e.get("bg")), "tables": len(e["tables"]) if isinstance(e.get("tables"), list) else int(e.get("tables") or 0)})
